@@ -44,37 +44,37 @@ Definition consf (c : N) (r : option (str * str)) : option (str * str) :=
 Definition is_surrogate (c : N) : bool := (55296 <=? c) && (c <=? 57343).
 Definition bad_raw (c : N) : bool := (c =? 0) || is_surrogate c || (1114111 <? c).
 
-Fixpoint lex_go (tq : bool) (q : lst) (s : str) {struct s} : option (str * str) :=
+Fixpoint lex_gen (qc : N) (tq : bool) (q : lst) (s : str) {struct s} : option (str * str) :=
   match s with
   | [] => None                                            (* unterminated literal *)
   | c :: r =>
       (* what an ordinary-state step does with c (also used when an octal escape ends early) *)
       let nrm :=
-        if c =? 34 then
+        if c =? qc then
           if tq then
             match r with
-            | c2 :: c3 :: r3 => if (c2 =? 34) && (c3 =? 34) then Some ([], r3) else consf 34 (lex_go tq Nrm r)
-            | _ => consf 34 (lex_go tq Nrm r)
+            | c2 :: c3 :: r3 => if (c2 =? qc) && (c3 =? qc) then Some ([], r3) else consf qc (lex_gen qc tq Nrm r)
+            | _ => consf qc (lex_gen qc tq Nrm r)
             end
           else Some ([], r)
-        else if c =? 92 then lex_go tq Esc r
+        else if c =? 92 then lex_gen qc tq Esc r
         else if bad_raw c then None
-        else if c =? 10 then (if tq then consf 10 (lex_go tq Nrm r) else None)
-        else if c =? 13 then (if tq then consf 10 (lex_go tq AfterCR r) else None)
-        else consf c (lex_go tq Nrm r) in
+        else if c =? 10 then (if tq then consf 10 (lex_gen qc tq Nrm r) else None)
+        else if c =? 13 then (if tq then consf 10 (lex_gen qc tq AfterCR r) else None)
+        else consf c (lex_gen qc tq Nrm r) in
       match q with
       | Nrm => nrm
-      | AfterCR => if c =? 10 then lex_go tq Nrm r else nrm
+      | AfterCR => if c =? 10 then lex_gen qc tq Nrm r else nrm
       | Esc =>
           match simple_escape c with
-          | Some v => consf v (lex_go tq Nrm r)
+          | Some v => consf v (lex_gen qc tq Nrm r)
           | None =>
-              if c =? 10 then lex_go tq Nrm r                     (* backslash-newline: continuation *)
-              else if c =? 13 then lex_go tq AfterCR r            (* CR reads as LF *)
-              else if is_oct c then lex_go tq (Oct 2 (c - 48)) r
-              else if c =? 120 then lex_go tq (Hex 2 0) r         (* \x *)
-              else if c =? 117 then lex_go tq (Hex 4 0) r         (* \u *)
-              else if c =? 85 then lex_go tq (Hex 8 0) r          (* \U *)
+              if c =? 10 then lex_gen qc tq Nrm r                     (* backslash-newline: continuation *)
+              else if c =? 13 then lex_gen qc tq AfterCR r            (* CR reads as LF *)
+              else if is_oct c then lex_gen qc tq (Oct 2 (c - 48)) r
+              else if c =? 120 then lex_gen qc tq (Hex 2 0) r         (* \x *)
+              else if c =? 117 then lex_gen qc tq (Hex 4 0) r         (* \u *)
+              else if c =? 85 then lex_gen qc tq (Hex 8 0) r          (* \U *)
               else if c =? 78 then None                           (* \N{…}: name table not modelled: error *)
               else if bad_raw c then None
               else consf 92 nrm                                   (* unknown escape keeps the backslash *)
@@ -85,19 +85,22 @@ Fixpoint lex_go (tq : bool) (q : lst) (s : str) {struct s} : option (str * str) 
           | Some v =>
               let acc' := 16 * acc + v in
               match k with
-              | S (S k') => lex_go tq (Hex (S k') acc') r
-              | _ => if 1114111 <? acc' then None else consf acc' (lex_go tq Nrm r)
+              | S (S k') => lex_gen qc tq (Hex (S k') acc') r
+              | _ => if 1114111 <? acc' then None else consf acc' (lex_gen qc tq Nrm r)
               end
           end
       | Oct k acc =>
           if is_oct c then
             match k with
-            | S (S k') => lex_go tq (Oct (S k') (8 * acc + (c - 48))) r
-            | _ => consf (8 * acc + (c - 48)) (lex_go tq Nrm r)
+            | S (S k') => lex_gen qc tq (Oct (S k') (8 * acc + (c - 48))) r
+            | _ => consf (8 * acc + (c - 48)) (lex_gen qc tq Nrm r)
             end
           else consf acc nrm
       end
   end.
+
+(* [qc] = the quote character of the literal (34 or 39); escapes decode to their true code points whatever qc is *)
+Notation lex_go := (lex_gen 34).
 
 Definition starts3 (s : str) : bool :=
   match s with a :: b :: c :: _ => (a =? 34) && (b =? 34) && (c =? 34) | _ => false end.
@@ -119,14 +122,15 @@ Definition lex_tq (s : str) : option (str * str) :=
 (* what CPython reads at a position where a string literal starts *)
 Definition lex_str (s : str) : option (str * str) := if starts3 s then lex_tq s else lex_dq s.
 
-(* '...' literals: the lexer treats the two quote characters symmetrically, so a single-quoted literal is read by
-   exchanging the quote characters, reading a double-quoted literal, and exchanging back (validated against CPython like
-   the rest; a literal starting with three single quotes is not modelled: None) *)
-Definition swapq (c : N) : N := if c =? 34 then 39 else if c =? 39 then 34 else c.
+(* '...' literals: the same machine with the apostrophe as quote character (a literal starting with three
+   apostrophes is not modelled: None) *)
+Definition starts3sq (s : str) : bool :=
+  match s with a :: b :: c :: _ => (a =? 39) && (b =? 39) && (c =? 39) | _ => false end.
 Definition lex_sq (s : str) : option (str * str) :=
-  match lex_dq (map swapq s) with
-  | Some (v, r) => Some (map swapq v, map swapq r)
-  | None => None
+  if starts3sq s then None else
+  match s with
+  | c :: r => if c =? 39 then lex_gen 39 false Nrm r else None
+  | [] => None
   end.
 Definition lex_lit (s : str) : option (str * str) :=
   match s with c :: _ => if c =? 39 then lex_sq s else lex_str s | [] => None end.
